@@ -103,8 +103,17 @@ class Sim:
 
 
 def shrink_spec_case(case, keep_sched_key="scheds"):
-  """Generic candidates for cases of the form {"spec":..., "inputs":[...], ...}."""
+  """Generic candidates for cases of the form {"spec":..., "inputs":[...], ...}.
+  Cheapest and most effective reductions first: one scheduler, a short input prefix, then
+  delta-debugging over the items of each component (halves, quarters, ..., singles)."""
   seq = case["inputs"]
+  if keep_sched_key in case and len(case[keep_sched_key]) > 1:
+    for i in range(len(case[keep_sched_key])):
+      yield dict(case, **{keep_sched_key: [case[keep_sched_key][i]]})
+  # prefixes of the input sequence (most violations show within the first cycles)
+  for n in (1, 2, 3, 5, 8):
+    if n < len(seq):
+      yield dict(case, inputs=seq[:n])
   k = len(seq)
   while k > 1:
     k //= 2
@@ -112,22 +121,42 @@ def shrink_spec_case(case, keep_sched_key="scheds"):
       cand_seq = seq[:a] + seq[a + k:]
       if cand_seq:
         yield dict(case, inputs=cand_seq)
-  if keep_sched_key in case and len(case[keep_sched_key]) > 1:
-    for i in range(len(case[keep_sched_key])):
-      yield dict(case, **{keep_sched_key: [case[keep_sched_key][i]]})
   # strip fault decorations
   for i, st in enumerate(seq):
     for key in ("glitch", "dup_eval", "dup_block"):
       if key in st:
         s2 = {kk: vv for kk, vv in st.items() if kk != key}
         yield dict(case, inputs=seq[:i] + [s2] + seq[i + 1:])
-  # drop items of components (late items first)
+  # delta-debug the items of each component (late components first)
   spec = case["spec"]
   for cname in reversed(list(spec["comps"])):
     items = spec["comps"][cname]["items"]
-    for j in range(len(items) - 1, -1, -1):
+    n = len(items)
+    k = n
+    while k >= 1:
+      k2 = max(1, k // 2)
+      for a in range(0, n, k2):
+        sp2 = copy.deepcopy(spec)
+        del sp2["comps"][cname]["items"][a:a + k2]
+        if len(sp2["comps"][cname]["items"]) < n:
+          yield dict(case, spec=sp2)
+      if k2 == 1:
+        break
+      k = k2
+  # drop sub-component instances that nothing refers to any more, and unused child classes
+  for cname in list(spec["comps"]):
+    cd = spec["comps"][cname]
+    for j, sb in enumerate(cd["subs"]):
+      used = any(("'%s'" % sb["name"]) in repr(it) for it in cd["items"])
+      if not used:
+        sp2 = copy.deepcopy(spec)
+        del sp2["comps"][cname]["subs"][j]
+        yield dict(case, spec=sp2)
+  for cname in list(spec["comps"]):
+    if cname != spec["top"] and not any(cname in (sb.get("cls_list") or [sb["cls"]])
+                                        for cd in spec["comps"].values() for sb in cd["subs"]):
       sp2 = copy.deepcopy(spec)
-      del sp2["comps"][cname]["items"][j]
+      del sp2["comps"][cname]
       yield dict(case, spec=sp2)
   # drop statements inside flip-flop blocks (a register may hold); in combinational blocks
   # dropping a statement could remove a default assignment and create a latch, so there an
